@@ -102,15 +102,26 @@ def run_case(case):
     labels = []
     for mode in ('exact', 'float'):
         sim = Sim(cfg, mode)
+        unsupported = False
         for op in ops:
             err = sim.apply(op)
+            if err and mode == 'exact' and err[0] == 'C01:exception:TypeError':
+                # an implementation may apply float-only (NumPy) functions to losses: exact rationals are an observation aid,
+                # the float twin of the same case decides
+                unsupported = True
+                labels.append('exact_arithmetic_unsupported')
+                break
             if err:
                 return Result(False, key=err[0], detail=f'[{mode}] {err[1]}')
+        if unsupported:
+            continue
         nt = nt or sim.nontrivial()
         if sim.exactness_lost:
             labels.append('exactness_lost')
         if mode == 'exact' and sim.exact_agree:
             labels.append('agreed_exactly')
+    if cfg.get('extra'):
+        labels.append('unexplained_extra_features')
     labels += [cfg['storage']['cls'], cfg['imputer'].get('strategy', 'default'), 'dynamic' if cfg['dynamic'] else 'static',
                f"d={cfg['d']}"]
     if Q(cfg['alpha']) == 1 and cfg['dynamic']:
@@ -150,22 +161,25 @@ def make_machine():
 
         def _do(self, op):
             self.ops.append(op)
-            for sim in self.sims:
+            for sim in list(self.sims):
                 err = sim.apply(op)
+                if err and sim.h.mode == 'exact' and err[0] == 'C01:exception:TypeError':
+                    self.sims.remove(sim)    # see run_case: the float twin decides
+                    continue
                 if err:
                     self.fail(err[0], f'[{sim.h.mode}] {err[1]}', {'cfg': self.cfg, 'ops': list(self.ops)})
 
         @rule(data=st.data(), y=st.integers(-3, 3), n_inner=st.sampled_from([None, None, 1, 2, 3]),
               upd=st.sampled_from([True, True, True, False]))
         def explain_one(self, data, y, n_inner, upd):
-            x = [data.draw(cfgs.value_st()) for _ in range(self.cfg['d'])]
+            x = [data.draw(cfgs.value_st()) for _ in range(len(cfgs.all_names(self.cfg)))]
             if self.sims[0].calls == 0:
                 upd = True
             self._do(['explain', x, y, n_inner, upd])
 
         @rule(data=st.data(), y=st.integers(-3, 3))
         def update_storage(self, data, y):
-            x = [data.draw(cfgs.value_st()) for _ in range(self.cfg['d'])]
+            x = [data.draw(cfgs.value_st()) for _ in range(len(cfgs.all_names(self.cfg)))]
             self._do(['store', x, y])
 
         @rule(a=gen.seed32, b=gen.seed32)
